@@ -425,6 +425,17 @@ def run(ctx):
     shared.affected_walk_stops(ctx, r9)
     shared.affected_tasks_cover_completed(ctx, r9)
 
+    # ---- R10 decision tables of the join logic ----------------------------------
+    r10 = ctx.rule('R10', 'the join verdict (start / wait / fail) computed '
+                   'from the inbound tasks is the prescribed one for every '
+                   'combination of counts 0..3, cardinalities and inbound '
+                   'execution states', 'DT (finite-domain evaluation)')
+    from mstatic.rules import joinlogic
+    joinlogic.join_logical_state(ctx, r10)
+    joinlogic.induced_join_state(ctx, r10)
+    joinlogic.possible_route(ctx, r10)
+    r10.floor(8)
+
 
 def _join_exits_pass(cfg, f, sd, wait_node):
     """Every normal exit that skips the wait store is dominated by a test
